@@ -182,12 +182,18 @@ def infer(inference_state, context, leaf):
     return definitions
 
 
-def filter_follow_imports(names, follow_builtin_imports=False):
+def filter_follow_imports(names, follow_builtin_imports=False, _following=()):
     for name in names:
-        if name.is_import():
+        # Names are recreated by every goto, the tree name identifies them.
+        key = name if name.tree_name is None else name.tree_name
+        # An import that is already being followed is part of an import cycle
+        # (`from b import x` in a.py and `from a import x` in b.py) and cannot
+        # be resolved any further.
+        if name.is_import() and key not in _following:
             new_names = list(filter_follow_imports(
                 name.goto(),
                 follow_builtin_imports=follow_builtin_imports,
+                _following=_following + (key,),
             ))
             found_builtin = False
             if follow_builtin_imports:
